@@ -38,6 +38,25 @@ def text(a):
     return "".join(chr(c) for c in a)
 
 
+def literal_values(func, name):
+    """the values of a typing.Literal annotation (possibly inside Optional / a union), as strings"""
+    import typing
+    try:
+        hint = typing.get_type_hints(func).get(name)
+    except Exception:  # noqa: BLE001
+        return []
+    out = []
+
+    def walk(h):
+        if typing.get_origin(h) is typing.Literal:
+            out.extend(str(a) for a in typing.get_args(h))
+        else:
+            for a in typing.get_args(h):
+                walk(a)
+    walk(hint)
+    return out
+
+
 def params(flags_path, out_path):
     flags = json.load(open(flags_path))
     out = {}
@@ -50,15 +69,24 @@ def params(flags_path, out_path):
             ann = str(p.annotation)
             is_bool = ann.startswith("bool")
             v = VALID.get(name, "x")
+            # every value an enumerated (Literal) keyword allows: a wrapper may treat ONE of them specially
+            lits = literal_values(getattr(zerv, fn), name)
+            valids = [str(v)] + [x for x in lits if x != str(v)]
             kws.append({"name": name, "text": cps(name), "bool": is_bool, "int": ann.startswith("int"),
-                        "valid": cps("true" if is_bool else str(v))})
+                        "valid": cps("true" if is_bool else str(v)), "valids": [cps("true")] if is_bool else [cps(x) for x in valids]})
         out[fn] = {"base": [cps(fn)] + [cps(x) for x in pos], "kws": kws,
                    "opts": [{"opt": cps(o["opt"]), "takes": o["takes"]} for o in flags[fn]]}
     json.dump(out, open(out_path, "w"))
     print(json.dumps({f: len(v["kws"]) for f, v in out.items()}))
 
 
-def value_of(name, vc, is_bool):
+def value_of(name, vc, is_bool, lit=None):
+    if vc == "valid" and lit is not None and not is_bool:
+        return lit
+    return value_of_class(name, vc, is_bool)
+
+
+def value_of_class(name, vc, is_bool):
     if vc == "none":
         return None
     if vc == "false":
@@ -93,7 +121,11 @@ def replay(cases_path, zerv_bin, report_path):
         kwargs = {}
         for s in case["set"]:
             is_bool = str(sigs[fn].parameters[s["kw"]].annotation).startswith("bool")
-            kwargs[s["kw"]] = value_of(s["kw"], s["vc"], is_bool)
+            lit = text(s["lit"]) if isinstance(s.get("lit"), list) and s["lit"] else None
+            val = value_of(s["kw"], s["vc"], is_bool, lit)
+            if s["vc"] == "valid" and lit is not None and str(sigs[fn].parameters[s["kw"]].annotation).startswith("int"):
+                val = int(lit)
+            kwargs[s["kw"]] = val
         pos = FUNCS[fn]
         n += 1
         if any(v not in (None, False) for v in kwargs.values()):
